@@ -21,20 +21,22 @@ RULE = ("Hypothesis: 1-4 well-formed sequences over a shared pool of 2 channels 
         "overlapping same-key pair across inputs. Distinct by case digest.")
 ASSUMPTIONS = ["the velocity kept by a fused note is not part of the statement",
                "control/program changes are generated as noise but their fate is not part of the statement"]
-TIERS = {"quick": dict(shards=8, examples=1200), "thorough": dict(size=2, shards=16, examples=15000)}
+TIERS = {"quick": dict(shards=8, examples=1200, alt_ppqn=[480], alt_shards=2),
+         "thorough": dict(size=2, shards=16, examples=15000, alt_ppqn=[480, 7, 1000], alt_shards=4)}
 
 
 @st.composite
 def _case(draw, size=1):
     k = draw(st.integers(1, 4))
-    pitches = draw(st.sampled_from([(60, 61), (60,), (60, 61, 62)]))
+    pitches = draw(st.sampled_from([(60, 61), (60,), (60, 61, 62), (21, 108), (0, 127)]))
     ts_ticks = draw(st.lists(st.integers(0, 150), max_size=4, unique=True))
     ks_ticks = draw(st.lists(st.integers(0, 150), max_size=4, unique=True))
     metas = [[] for _ in range(k)]
     for t in ts_ticks:
         metas[draw(st.integers(0, k - 1))].append(["ts", t, draw(st.integers(2, 5)), draw(st.sampled_from([4, 8]))])
     for t in ks_ticks:
-        metas[draw(st.integers(0, k - 1))].append(["ks", t, draw(st.sampled_from(["C", "G", "F", "Db"]))])
+        metas[draw(st.integers(0, k - 1))].append(["ks", t, draw(st.one_of(st.sampled_from(["C", "G", "Db", "C#", "F#", "Gb", "B", "Cb"]),
+                                                                       st.sampled_from(gens.KEYS)))])
     seqs = []
     for i in range(k):
         if draw(st.integers(0, 7)) == 0:
